@@ -194,9 +194,25 @@ def units():
                                   'C01_add_imm_t1_step_example'] +
                    ['C01_' + c + '_step' for c in ('andImmediateA1', 'eorImmediateA1', 'subImmediateArmA1', 'rsbImmediateA1', 'adcImmediateA1',
                                                     'sbcImmediateA1', 'rscImmediateA1', 'orrImmediateA1', 'bicImmediateA1',
-                                                    'subImmediateThumbT1', 'addImmediateThumbT2', 'subImmediateThumbT2')],
+                                                    'subImmediateThumbT1', 'addImmediateThumbT2', 'subImmediateThumbT2',
+                                                    'andRegisterA1', 'eorRegisterA1', 'subRegisterA1', 'rsbRegisterA1', 'addRegisterArmA1',
+                                                    'adcRegisterA1', 'sbcRegisterA1', 'rscRegisterA1', 'orrRegisterA1', 'bicRegisterA1',
+                                                    'tstImmediateA1', 'teqImmediateA1', 'cmpImmediateA1', 'cmnImmediateA1',
+                                                    'andRegisterShiftedRegisterA1', 'eorRegisterShiftedRegisterA1',
+                                                    'subRegisterShiftedRegisterA1', 'rsbRegisterShiftedRegisterA1',
+                                                    'addRegisterShiftedRegisterA1', 'adcRegisterShiftedRegisterA1',
+                                                    'sbcRegisterShiftedRegisterA1', 'rscRegisterShiftedRegisterA1',
+                                                    'orrRegisterShiftedRegisterA1', 'bicRegisterShiftedRegisterA1',
+                                                    'andRegisterT1', 'eorRegisterT1', 'adcRegisterT1', 'sbcRegisterT1', 'orrRegisterT1',
+                                                    'bicRegisterT1', 'tstRegisterT1', 'cmpRegisterT1', 'cmnRegisterT1',
+                                                    'movImmediateA1', 'mvnImmediateA1', 'movImmediateT1', 'cmpImmediateT1',
+                                                    'andImmediateT1', 'bicImmediateT1', 'orrImmediateT1', 'ornImmediateT1', 'eorImmediateT1',
+                                                    'addImmediateThumbT3', 'adcImmediateT1', 'sbcImmediateT1', 'subImmediateThumbT3',
+                                                    'rsbImmediateT2')] +
+                   ['C01_dp_step', 'C01_dp_cmp_step', 'C01_add_imm_a1_closed', 'C01_add_imm_t1_closed', 'C01_and_imm_t1_closed'],
                    ['Proofs/StepProofs.v', 'Proofs/StepDP.v', 'Proofs/StepInstances.v', 'Proofs/StepInstancesArm.v',
-                    'Proofs/StepInstancesThumb.v', 'Proofs/StepInstancesExample.v'],
+                    'Proofs/StepInstancesThumb.v', 'Proofs/StepDPReg.v', 'Proofs/StepInstancesArmReg.v', 'Proofs/StepInstancesCmp.v', 'Proofs/StepInstancesArmRsr.v', 'Proofs/StepInstancesThumbReg.v', 'Proofs/StepInstancesMov.v', 'Proofs/StepInstancesThumb2.v', 'Proofs/StepFetch.v', 'Proofs/StepClosed.v',
+                    'Proofs/DPRange.v', 'Proofs/StepInstancesExample.v'],
                    ['arm_v6.ArmV6.emulate_cycle', 'arm_v6.ArmV6.execute_instruction', 'arm_v6.ArmV6.increment_pc_if_needed'], None,
                    IMPORTS, SPEC_IMPORTS))
     return us
